@@ -103,6 +103,17 @@ structure ShCfg where
   reg     : Bool                 -- `Decoder(register=…)`
   timeout : Option Nat           -- `timeout_cycles` (`none` = no `Timeout` module)
   dw      : Nat                  -- data width (the timeout answers `dat_r = 2^dw - 1`)
+  aws     : List Nat := []       -- `adr_width` of every master (`[]` = not modelled: unbounded addresses)
+
+/-- `adr_width` of the shared bus: `max([m.adr_width for m in masters])`. -/
+def ShCfg.busWidth (c : ShCfg) : Option Nat :=
+  if c.aws.isEmpty then none else some (c.aws.foldl max 0)
+
+/-- `shared.adr.eq(choices[grant])`: the granted master's address, zero-extended / truncated to the shared bus. -/
+def ShCfg.busAdr (c : ShCfg) (a : Nat) : Nat :=
+  match c.busWidth with
+  | none => a
+  | some w => a % 2 ^ w
 
 structure ShState where
   grant : Nat                    -- `arbiter.rr.grant`
@@ -116,11 +127,12 @@ variable (c : ShCfg)
 def init : ShState :=
   { grant := 0, selR := List.replicate c.m false, count := c.timeout.getD 0 }
 
-/-- Master-to-slave signals on the shared bus: `choices[rr.grant]`. -/
-def bus (s : ShState) (x : BusIn) : MS := x.ms s.grant
+/-- Master-to-slave signals on the shared bus: `choices[rr.grant]`; the address is carried by a signal of the
+    widest master's `adr_width`. -/
+def bus (s : ShState) (x : BusIn) : MS := { x.ms s.grant with adr := c.busAdr (x.ms s.grant).adr }
 
 /-- `slave_sel[j]`. -/
-def sel (s : ShState) (x : BusIn) (j : Nat) : Bool := c.dec j (bus s x).adr
+def sel (s : ShState) (x : BusIn) (j : Nat) : Bool := c.dec j (bus c s x).adr
 
 /-- `slave_sel_r[j]`: the select used by the read-data mux. -/
 def selMux (s : ShState) (x : BusIn) (j : Nat) : Bool :=
@@ -143,10 +155,10 @@ def busErr (_s : ShState) (x : BusIn) : Bool := decErr c x
 def busDat (s : ShState) (x : BusIn) : Nat := if done c s then 2 ^ c.dw - 1 else decDat c s x
 
 /-- `timer.wait = shared.stb & shared.cyc & ~shared.ack`. -/
-def wait (s : ShState) (x : BusIn) : Bool := (bus s x).stb && (bus s x).cyc && !busAck c s x
+def wait (s : ShState) (x : BusIn) : Bool := (bus c s x).stb && (bus c s x).cyc && !busAck c s x
 
 def out (s : ShState) (x : BusIn) : BusOut where
-  toS j := { bus s x with cyc := (bus s x).cyc && sel c s x j }
+  toS j := { bus c s x with cyc := (bus c s x).cyc && sel c s x j }
   toM i := { ack := busAck c s x && (s.grant == i), err := busErr c s x && (s.grant == i), datR := busDat c s x }
   error := done c s
 
